@@ -122,6 +122,35 @@ impl ChunkHeader {
     }
 }
 
+/// Read `size` bytes of chunk payload without trusting `size` for the allocation.
+///
+/// Sizes of nested chunks come straight from the file. The buffer grows with the
+/// bytes that are actually read, so a bogus size costs at most what is left of the
+/// stream instead of `size` bytes up front. A short read is reported as
+/// [`std::io::ErrorKind::UnexpectedEof`], exactly like `read_exact` would.
+pub(crate) fn read_chunk_data<R: std::io::Read>(
+    reader: &mut R,
+    size: u32,
+) -> std::io::Result<Vec<u8>> {
+    use std::io::Read;
+
+    let mut data = Vec::new();
+    reader
+        .by_ref()
+        .take(u64::from(size))
+        .read_to_end(&mut data)?;
+    if data.len() as u64 != u64::from(size) {
+        return Err(std::io::Error::new(
+            std::io::ErrorKind::UnexpectedEof,
+            format!(
+                "chunk data truncated: {size} bytes declared, {} available",
+                data.len()
+            ),
+        ));
+    }
+    Ok(data)
+}
+
 #[cfg(test)]
 mod tests {
     use super::*;
